@@ -119,7 +119,7 @@ class EAlias(Engine):
     # 'mutated_entity_shared_a_buffer' is greybox guidance that can only fire while an aliasing defect exists
     expected_probes = ('derive_via_cache_hit', 'external_mutation_of_source_buffer',
                        'external_mutation_of_tobitarray_result', 'immutable_member_called', 'generator_stepped_after_mutation',
-                       'mutation_with_self_operand', 'array_mutated', 'array_bitop_with_live_mask')
+                       'mutation_with_self_operand', 'array_mutated', 'array_bitop_with_live_mask', 'run_under_lsb0')
 
     def plan(self, tier, base_seed):
         return self.seeded_plan(tier, base_seed, quick=(16000, 40), thorough=(1200000, 60))
@@ -129,7 +129,9 @@ class EAlias(Engine):
         for _ in range(g.int(2, 4)):
             init.append({'cls': g.pick(CLASSES), 'bits': g.bits(g.length(48)), 'via': g.pick(['bin', 'str', 'str'])})
         return {'avoid': bool(desc.get('avoid')), 'init': init,
-                'w_mut': g.pick([1, 2, 3]), 'w_probe': g.pick([0, 1, 2]), 'w_step': g.pick([0, 1, 2]), 'w_cache': g.pick([0, 1])}
+                'w_mut': g.pick([1, 2, 3]), 'w_probe': g.pick([0, 1, 2]), 'w_step': g.pick([0, 1, 2]), 'w_cache': g.pick([0, 1]),
+                # knob: isolation must hold whichever bit numbering is in force (other code paths are bound in lsb0 mode)
+                'lsb0': g.chance(0.25)}
 
     # -------------------------------------------------------------------------------------------------
     def start(self, cfg):
@@ -139,6 +141,9 @@ class EAlias(Engine):
         self.B = self.R.pkg
         self.pool = []
         self.serial = 0
+        if cfg.get('lsb0'):
+            self.B.options.lsb0 = True
+            self.probe('run_under_lsb0')
         self.members = {c: [m for m in sorted(dir(getattr(self.B, c))) if not m.startswith('_')] for c in IMMUTABLE}
         for e in cfg.get('init', [])[:6]:
             cls = e.get('cls') if e.get('cls') in CLASSES else 'Bits'
